@@ -248,6 +248,8 @@ def generate(rng, tier):
         for _ in range(rng.randint(1, 6)):
             k = rng.choice('LQC')
             pts = [(rng.uniform(-10, 10), rng.uniform(-10, 10)) for _ in range({'L': 1, 'Q': 2, 'C': 3}[k])]
+            if k != 'L' and rng.random() < 0.2:
+                pts[-1] = last       # a loop: the curve ends bit-exactly where it starts (positive length, zero chord)
             els.append(k + ' ' + ' '.join(H(*p) for p in pts))
             seglines.append(f'seg.arclen {k} {H(*last)} ' + ' '.join(H(*p) for p in pts) + f' {H(acc)}')
             last = pts[-1]
